@@ -180,6 +180,60 @@ func realOptimize(patch []byte, oldDir, newDir string, op optParams) ([]byte, re
 	return out.Bytes(), rc.GetDiffMappings(), nil
 }
 
+// eofPool: the old build is read through readers that hand over the LAST bytes of a file together with io.EOF
+// (n > 0, err == io.EOF) - what the io.Reader contract allows and a pool over an archive or a network store does.
+type eofPool struct{ lake.Pool }
+
+type eofSeeker struct {
+	rs   io.ReadSeeker
+	size int64
+	pos  int64
+}
+
+func (e *eofSeeker) Read(p []byte) (int, error) {
+	n, err := e.rs.Read(p)
+	e.pos += int64(n)
+	if err == nil && n > 0 && e.pos >= e.size {
+		err = io.EOF
+	}
+	return n, err
+}
+
+func (e *eofSeeker) Seek(off int64, whence int) (int64, error) {
+	n, err := e.rs.Seek(off, whence)
+	if err == nil {
+		e.pos = n
+	}
+	return n, err
+}
+
+func (p *eofPool) wrap(rs io.ReadSeeker) (io.ReadSeeker, error) {
+	size, err := rs.Seek(0, io.SeekEnd)
+	if err != nil {
+		return nil, err
+	}
+	if _, err := rs.Seek(0, io.SeekStart); err != nil {
+		return nil, err
+	}
+	return &eofSeeker{rs: rs, size: size}, nil
+}
+
+func (p *eofPool) GetReadSeeker(i int64) (io.ReadSeeker, error) {
+	rs, err := p.Pool.GetReadSeeker(i)
+	if err != nil {
+		return nil, err
+	}
+	return p.wrap(rs)
+}
+
+func (p *eofPool) GetReader(i int64) (io.Reader, error) {
+	rs, err := p.Pool.GetReadSeeker(i)
+	if err != nil {
+		return nil, err
+	}
+	return p.wrap(rs)
+}
+
 // ---------------------------------------------------------------- independent decoder
 
 type pmsg struct {
